@@ -1,4 +1,4 @@
-import PewProofs.Convolve
+import PewProofs.ConvolveReal
 
 /-! # C18 — property theorems (the provable, exact-arithmetic part; see the header of
 `PewModel/Convolve.lean` for what is *not* proved) -/
@@ -402,6 +402,202 @@ theorem triangular_spec_odd (k : Nat) (hk : 1 ≤ k) (a b scale shift : Rat) (h1
 
 example : ((triangular 3 (-1 / 3) (1 / 7) (-2) 0).map Prod.snd).sum = 1 :=
   (triangular_spec_odd 1 (by norm_num) (-1 / 3) (1 / 7) (-2) 0 (by norm_num) (by norm_num)).2.2.1
+
+/-! ### the eight generators built from `exp`, `log`, real powers and `sqrt(2π)`
+
+`S : Special K` holds those functions; `S.Sound` says `exp` is positive, a power of a positive base is positive,
+`0 ** y ≥ 0`, `sqrt(2π) > 0` and `ofRat` is the embedding of ℚ.  Under `S.Sound` every density is positive on
+its support for every parameter of the documented domain (the gamma approximation inside `beta_pdf` and
+`inversegamma_pdf` is proved positive, `gammaApprox_pos`), so each generator returns `size` rows over its
+`linspace` axis with weights in [0, 1] that sum to one.  `realSpecial_sound` discharges `S.Sound` for the real
+functions.  (Exact real arithmetic: underflow of a float `exp` to 0 is outside these statements.) -/
+
+section densities
+variable {K : Type} [Field K] [LinearOrder K] [IsStrictOrderedRing K] {S : Special K}
+
+theorem exponentialPdf_pos (hS : S.Sound) (lam x : Rat) (hl : 0 < lam) : 0 < exponentialPdf S lam x := by
+  unfold exponentialPdf
+  rw [hS.cast]
+  exact mul_pos (by exact_mod_cast hl) (hS.exp_pos _)
+
+theorem laplacePdf_pos (hS : S.Sound) (b mu x : Rat) (hb : 0 < b) : 0 < laplacePdf S b mu x := by
+  unfold laplacePdf
+  rw [hS.cast]
+  have : (0 : Rat) < 1 / (2 * b) := by positivity
+  exact mul_pos (by exact_mod_cast this) (hS.exp_pos _)
+
+theorem normalPdf_pos (hS : S.Sound) (sigma mu x : Rat) (hs : 0 < sigma) : 0 < normalPdf S sigma mu x := by
+  unfold normalPdf
+  rw [hS.cast, hS.cast]
+  have h1 : (0 : K) < (sigma : K) := by exact_mod_cast hs
+  have := hS.s2pi_pos
+  exact mul_pos (by push_cast; positivity) (hS.exp_pos _)
+
+theorem superGaussianPdf_pos (hS : S.Sound) (sigma mu : Rat) (power : Nat) (x : Rat) (hs : 0 < sigma) :
+    0 < superGaussianPdf S sigma mu power x := by
+  unfold superGaussianPdf
+  rw [hS.cast, hS.cast]
+  have h1 : (0 : K) < (sigma : K) := by exact_mod_cast hs
+  have := hS.s2pi_pos
+  exact mul_pos (by push_cast; positivity) (hS.exp_pos _)
+
+theorem lognormalPdf_pos (hS : S.Sound) (sigma mu x : Rat) (hs : 0 < sigma) (hx : 0 < x) :
+    0 < lognormalPdf S sigma mu x := by
+  unfold lognormalPdf
+  simp only []
+  rw [hS.cast 1, hS.cast (x * sigma)]
+  have h1 : (0 : K) < ((x * sigma : Rat) : K) := by exact_mod_cast mul_pos hx hs
+  have := hS.s2pi_pos
+  exact mul_pos (by push_cast at h1 ⊢; positivity) (hS.exp_pos _)
+
+theorem loglaplacePdf_pos (hS : S.Sound) (b mu x : Rat) (hb : 0 < b) (hx : 0 < x) :
+    0 < loglaplacePdf S b mu x := by
+  unfold loglaplacePdf
+  rw [hS.cast (1 / (2 * b * x))]
+  have : (0 : Rat) < 1 / (2 * b * x) := by positivity
+  exact mul_pos (by exact_mod_cast this) (hS.exp_pos _)
+
+theorem inversegammaPdf_pos (hS : S.Sound) (alpha beta x : Rat) (ha : 0 < alpha) (hb : 0 < beta) (hx : 0 < x) :
+    0 < inversegammaPdf S alpha beta x := by
+  unfold inversegammaPdf
+  rw [hS.cast beta, hS.cast x, hS.cast (gammaApprox alpha)]
+  have hg : (0 : K) < ((gammaApprox alpha : Rat) : K) := by exact_mod_cast gammaApprox_pos alpha ha
+  have hbK : (0 : K) < (beta : K) := by exact_mod_cast hb
+  have hxK : (0 : K) < (x : K) := by exact_mod_cast hx
+  exact mul_pos (mul_pos (div_pos (hS.rpow_pos _ _ hbK) hg) (hS.rpow_pos _ _ hxK)) (hS.exp_pos _)
+
+theorem betaNorm_pos (alpha beta : Rat) (ha : 0 < alpha) (hb : 0 < beta) :
+    0 < gammaApprox alpha * gammaApprox beta / gammaApprox (alpha + beta) :=
+  div_pos (mul_pos (gammaApprox_pos _ ha) (gammaApprox_pos _ hb)) (gammaApprox_pos _ (by linarith))
+
+theorem betaPdf_nonneg (hS : S.Sound) (alpha beta x : Rat) (ha : 0 < alpha) (hb : 0 < beta)
+    (h0 : 0 ≤ x) (h1 : x ≤ 1) : 0 ≤ betaPdf S alpha beta x := by
+  unfold betaPdf
+  rw [hS.cast x, hS.cast (1 - x), hS.cast (gammaApprox alpha * gammaApprox beta / gammaApprox (alpha + beta))]
+  have hB : (0 : K) < ((gammaApprox alpha * gammaApprox beta / gammaApprox (alpha + beta) : Rat) : K) := by
+    exact_mod_cast betaNorm_pos alpha beta ha hb
+  have p : ∀ (t : Rat) (y : K), 0 ≤ t → 0 ≤ S.rpow (t : K) y := by
+    intro t y ht
+    rcases ht.lt_or_eq with h | h
+    · exact (hS.rpow_pos _ y (by exact_mod_cast h)).le
+    · subst h; simpa using hS.rpow_zero_nonneg y
+  exact div_nonneg (mul_nonneg (p x _ h0) (p (1 - x) _ (by linarith))) hB.le
+
+theorem betaPdf_pos (hS : S.Sound) (alpha beta x : Rat) (ha : 0 < alpha) (hb : 0 < beta)
+    (h0 : 0 < x) (h1 : x < 1) : 0 < betaPdf S alpha beta x := by
+  unfold betaPdf
+  rw [hS.cast x, hS.cast (1 - x), hS.cast (gammaApprox alpha * gammaApprox beta / gammaApprox (alpha + beta))]
+  have hB : (0 : K) < ((gammaApprox alpha * gammaApprox beta / gammaApprox (alpha + beta) : Rat) : K) := by
+    exact_mod_cast betaNorm_pos alpha beta ha hb
+  have hx : (0 : K) < (x : K) := by exact_mod_cast h0
+  have hx1 : (0 : K) < ((1 - x : Rat) : K) := by
+    have : (0 : Rat) < 1 - x := by linarith
+    exact_mod_cast this
+  exact div_pos (mul_pos (hS.rpow_pos _ _ hx) (hS.rpow_pos _ _ hx1)) hB
+
+end densities
+
+/-- what the property asks of a generator's return value: `size` rows, the first column is the axis, the
+weights lie in [0, 1] and sum to one -/
+def IsKernel {K : Type} [Field K] [LinearOrder K] (rows : List (Rat × K)) (size : Nat) (axis : List Rat) : Prop :=
+  rows.length = size ∧ rows.map Prod.fst = axis ∧ (rows.map Prod.snd).sum = 1 ∧
+    ∀ w ∈ rows.map Prod.snd, 0 ≤ w ∧ w ≤ 1
+
+section generators
+variable {K : Type} [Field K] [LinearOrder K] [IsStrictOrderedRing K] {S : Special K}
+
+/-- `exponential(size, λ, scale, shift)`: every `λ > 0`, every size ≥ 1, every scale and shift -/
+theorem exponential_isKernel (hS : S.Sound) (size : Nat) (lam scale shift : Rat) (hn : 0 < size) (hl : 0 < lam) :
+    IsKernel (exponential S size lam scale shift) size (axisPos size scale shift) :=
+  generator_spec_of_pos .pos _ size scale shift hn (fun x => exponentialPdf_pos hS lam x hl)
+
+/-- `laplace(size, b, mu, scale, shift)`: every `b > 0` -/
+theorem laplace_isKernel (hS : S.Sound) (size : Nat) (b mu scale shift : Rat) (hn : 0 < size) (hb : 0 < b) :
+    IsKernel (laplace S size b mu scale shift) size (axisSym size scale shift) :=
+  generator_spec_of_pos .sym _ size scale shift hn (fun x => laplacePdf_pos hS b mu x hb)
+
+/-- `normal(size, sigma, mu, scale, shift)`: every `sigma > 0` -/
+theorem normal_isKernel (hS : S.Sound) (size : Nat) (sigma mu scale shift : Rat) (hn : 0 < size) (hs : 0 < sigma) :
+    IsKernel (normal S size sigma mu scale shift) size (axisSym size scale shift) :=
+  generator_spec_of_pos .sym _ size scale shift hn (fun x => normalPdf_pos hS sigma mu x hs)
+
+/-- `super_gaussian(size, sigma, mu, power, scale, shift)`: every `sigma > 0`, every integer power -/
+theorem superGaussian_isKernel (hS : S.Sound) (size : Nat) (sigma mu : Rat) (power : Nat) (scale shift : Rat)
+    (hn : 0 < size) (hs : 0 < sigma) :
+    IsKernel (superGaussian S size sigma mu power scale shift) size (axisSym size scale shift) :=
+  generator_spec_of_pos .sym _ size scale shift hn (fun x => superGaussianPdf_pos hS sigma mu power x hs)
+
+/-- an axis `linspace(shift, size·scale + shift, size)` with both end points positive is positive throughout -/
+theorem axisPos_pos (size : Nat) (scale shift : Rat) (h0 : 0 < shift) (h1 : 0 < (size : Rat) * scale + shift) :
+    ∀ x ∈ axisPos size scale shift, 0 < x := by
+  intro x hx
+  have := (linspace_mem_between _ _ _ x hx).1
+  have hm : 0 < min shift ((size : Rat) * scale + shift) := lt_min h0 h1
+  linarith
+
+/-- a density that is positive on the positive axis (log-normal, log-Laplace, inverse gamma) -/
+theorem posAxis_isKernel (pdf : Rat → K) (size : Nat) (scale shift : Rat) (hn : 0 < size)
+    (h0 : 0 < shift) (h1 : 0 < (size : Rat) * scale + shift) (hpdf : ∀ x : Rat, 0 < x → 0 < pdf x) :
+    IsKernel (generatorWith .pos pdf size scale shift) size (axisPos size scale shift) := by
+  apply generator_spec .pos pdf size scale shift
+  · intro x hx; exact (hpdf x (axisPos_pos size scale shift h0 h1 x hx)).le
+  · have hlen : (axisPos size scale shift).length = size := by simp [axisPos, linspace]
+    obtain ⟨x, hx⟩ := List.exists_mem_of_length_pos (by rw [hlen]; exact hn)
+    exact ⟨x, hx, hpdf x (axisPos_pos size scale shift h0 h1 x hx)⟩
+
+/-- `lognormal(size, sigma, mu, scale, shift)`: `sigma > 0`, the axis inside `x > 0` -/
+theorem lognormal_isKernel (hS : S.Sound) (size : Nat) (sigma mu scale shift : Rat) (hn : 0 < size) (hs : 0 < sigma)
+    (h0 : 0 < shift) (h1 : 0 < (size : Rat) * scale + shift) :
+    IsKernel (lognormal S size sigma mu scale shift) size (axisPos size scale shift) :=
+  posAxis_isKernel _ size scale shift hn h0 h1 (fun x hx => lognormalPdf_pos hS sigma mu x hs hx)
+
+/-- `loglaplace(size, b, mu, scale, shift)`: `b > 0`, the axis inside `x > 0` -/
+theorem loglaplace_isKernel (hS : S.Sound) (size : Nat) (b mu scale shift : Rat) (hn : 0 < size) (hb : 0 < b)
+    (h0 : 0 < shift) (h1 : 0 < (size : Rat) * scale + shift) :
+    IsKernel (loglaplace S size b mu scale shift) size (axisPos size scale shift) :=
+  posAxis_isKernel _ size scale shift hn h0 h1 (fun x hx => loglaplacePdf_pos hS b mu x hb hx)
+
+/-- `inversegamma(size, alpha, beta, scale, shift)`: `alpha, beta > 0`, the axis inside `x > 0` -/
+theorem inversegamma_isKernel (hS : S.Sound) (size : Nat) (alpha beta scale shift : Rat) (hn : 0 < size)
+    (ha : 0 < alpha) (hb : 0 < beta) (h0 : 0 < shift) (h1 : 0 < (size : Rat) * scale + shift) :
+    IsKernel (inversegamma S size alpha beta scale shift) size (axisPos size scale shift) :=
+  posAxis_isKernel _ size scale shift hn h0 h1 (fun x hx => inversegammaPdf_pos hS alpha beta x ha hb hx)
+
+/-- `beta(size, alpha, beta, scale, shift)`: `alpha, beta > 0` (the property restricts to shapes ≥ 1 so that the
+density is finite at 0 and 1; in exact arithmetic positivity needs only > 0), at least three points, the axis
+`linspace(shift, scale + shift, size)` inside [0, 1] and not a single point -/
+theorem beta_isKernel (hS : S.Sound) (size : Nat) (alpha beta_ scale shift : Rat) (hn : 3 ≤ size)
+    (ha : 0 < alpha) (hb : 0 < beta_) (hsc : scale ≠ 0) (h0 : 0 ≤ shift) (h0' : shift ≤ 1)
+    (h1 : 0 ≤ 1 * scale + shift) (h1' : 1 * scale + shift ≤ 1) :
+    IsKernel (beta S size alpha beta_ scale shift) size (axisUnit size scale shift) := by
+  apply generator_spec .unit _ size scale shift
+  · intro x hx
+    obtain ⟨hlo, hhi⟩ := linspace_mem_between _ _ _ x hx
+    have : 0 ≤ min shift (1 * scale + shift) := le_min h0 h1
+    have : max shift (1 * scale + shift) ≤ 1 := max_le h0' h1'
+    exact betaPdf_nonneg hS alpha beta_ x ha hb (by linarith) (by linarith)
+  · obtain ⟨x, hx, hlo, hhi⟩ := linspace_second_strict shift (1 * scale + shift) size hn
+      (by intro h; apply hsc; linarith)
+    have : 0 ≤ min shift (1 * scale + shift) := le_min h0 h1
+    have : max shift (1 * scale + shift) ≤ 1 := max_le h0' h1'
+    exact ⟨x, hx, betaPdf_pos hS alpha beta_ x ha hb (by linarith) (by linarith)⟩
+
+end generators
+
+/-- with the real `exp`, `log`, powers and `√(2π)` nothing is left to assume: e.g. the normal and the beta
+generator over ℝ, for every parameter of their domains -/
+theorem normal_real (size : Nat) (sigma mu scale shift : Rat) (hn : 0 < size) (hs : 0 < sigma) :
+    IsKernel (normal realSpecial size sigma mu scale shift) size (axisSym size scale shift) :=
+  normal_isKernel realSpecial_sound size sigma mu scale shift hn hs
+
+theorem beta_real (size : Nat) (alpha beta_ : Rat) (hn : 3 ≤ size) (ha : 0 < alpha) (hb : 0 < beta_) :
+    IsKernel (beta realSpecial size alpha beta_ 1 0) size (axisUnit size 1 0) :=
+  beta_isKernel realSpecial_sound size alpha beta_ 1 0 hn ha hb (by norm_num) (by norm_num) (by norm_num)
+    (by norm_num) (by norm_num)
+
+/-- a `Special` over ℚ that is `Sound` (so the hypotheses are satisfiable with computable functions too) -/
+example : (⟨fun q => q, fun _ => 1, fun t => t, fun _ _ => 1, fun t => t, 1⟩ : Special Rat).Sound :=
+  ⟨fun _ => rfl, fun _ => one_pos, fun _ _ _ => one_pos, fun _ => zero_le_one, one_pos⟩
 
 /-! ## deconvolution -/
 
